@@ -216,25 +216,32 @@ Definition trim_start_matches (p s : str) : str :=
   match p with [] => s | _ => strip_all (length s) p s end.
 Definition trim_end_matches (p s : str) : str := rev (trim_start_matches (rev p) (rev s)).
 
-(* str::split(&str): leftmost non-overlapping matches; the empty pattern matches at every
-   boundary (so the pieces are "", each character, "") *)
-Fixpoint split_fuel (fuel : nat) (p s cur : str) : list str :=
-  match fuel with
-  | O => [rev cur ++ s]
-  | S f =>
+(* leftmost occurrence of p in s: (text before it, text after it) *)
+Fixpoint find_occ (p s : str) : option (str * str) :=
+  match strip_prefix p s with
+  | Some r => Some ([], r)
+  | None =>
       match s with
-      | [] => [rev cur]
-      | c :: t =>
-          match strip_prefix p s with
-          | Some r => rev cur :: split_fuel f p r []
-          | None => split_fuel f p t (c :: cur)
-          end
+      | [] => None
+      | c :: t => match find_occ p t with Some (a, r) => Some (c :: a, r) | None => None end
       end
+  end.
+
+(* str::split(&str): leftmost non-overlapping matches; the empty pattern matches at every
+   boundary (so the pieces are "", each character, "").  fuel: one match consumes at least one
+   character when p is not empty, so S (length s) rounds are enough (lemma split_fuel_enough) *)
+Fixpoint split_fuel (fuel : nat) (p s : str) : list str :=
+  match fuel with
+  | O => [s]
+  | S f => match find_occ p s with
+           | Some (a, r) => a :: split_fuel f p r
+           | None => [s]
+           end
   end.
 Definition str_split (p s : str) : list str :=
   match p with
   | [] => [] :: map (fun c => [c]) s ++ [[]]
-  | _ => split_fuel (S (length s)) p s []
+  | _ => split_fuel (S (length s)) p s
   end.
 
 Fixpoint intercalate (sep : str) (l : list str) : str :=
@@ -248,11 +255,8 @@ Fixpoint intercalate (sep : str) (l : list str) : str :=
 Definition str_replace (from to s : str) : str := intercalate to (str_split from s).
 
 (* str::contains(&str) *)
-Fixpoint str_contains (p s : str) : bool :=
-  match strip_prefix p s with
-  | Some _ => true
-  | None => match s with [] => false | _ :: t => str_contains p t end
-  end.
+Definition str_contains (p s : str) : bool :=
+  match find_occ p s with Some _ => true | None => false end.
 Definition starts_with (p s : str) : bool :=
   match strip_prefix p s with Some _ => true | None => false end.
 Definition ends_with (p s : str) : bool := starts_with (rev p) (rev s).
@@ -458,7 +462,9 @@ Definition f_replace (kw : kwargs) (v : value) := on_str v (fun s =>
 Definition f_truncate (kw : kwargs) (v : value) := on_str v (fun s =>
   let? n := kw_must (arg_int TUsize) "length" kw in
   let? e := kw_get arg_str "end" kw in
-  BOk (str_truncate s (Z.to_nat n) e)).
+  (* `nth(length)` past the end is None whatever the excess: the count is clamped to the number of
+     characters (lemma truncate_clamp), which also keeps the model evaluable for length = u64::MAX *)
+  BOk (str_truncate s (Z.to_nat (Z.min n (Z.of_nat (length s)))) e)).
 
 Definition f_indent (kw : kwargs) (v : value) := on_str v (fun s =>
   let? w := kw_get (arg_int TUsize) "width" kw in
@@ -574,7 +580,8 @@ Definition f_last (kw : kwargs) (v : value) : bres value :=
 Definition f_nth (kw : kwargs) (v : value) : bres value :=
   let? l := arg_array v in
   let? n := kw_must (arg_int TUsize) "n" kw in
-  BOk (nth (Z.to_nat n) l VNone).
+  (* slice::get past the end is None whatever the excess (clamped as in truncate) *)
+  BOk (nth (Z.to_nat (Z.min n (Z.of_nat (length l)))) l VNone).
 
 Fixpoint fmt_all (l : list value) : option (list str) :=
   match l with
@@ -711,18 +718,20 @@ Definition range_len (start end_ step : Z) : bres Z :=
     let t := span + (st - 1) in
     if negb (in_i128 t) then BErr EOther else BOk (Z.quot t st).
 
-Definition fn_range (kw : kwargs) : bres value :=
-  let? start := kw_get (arg_int TI128) "start" kw in
-  let? end_ := kw_must (arg_int TI128) "end" kw in
-  let? step := kw_get (arg_int TI128) "step_by" kw in
-  let start := opt_or start 0 in
-  let step := opt_or step 1 in
+(* the part of `range` after its arguments were read *)
+Definition range_core (start end_ step : Z) : bres value :=
   let? len := range_len start end_ step in
   if max_range_len <? len then BErr EOther else
   match range_values (Z.to_nat len) 0 start step with
   | Some l => BOk (VArr (map (VInt I128) l))
   | None => BErr EPanic
   end.
+
+Definition fn_range (kw : kwargs) : bres value :=
+  let? start := kw_get (arg_int TI128) "start" kw in
+  let? end_ := kw_must (arg_int TI128) "end" kw in
+  let? step := kw_get (arg_int TI128) "step_by" kw in
+  range_core (opt_or start 0) end_ (opt_or step 1).
 
 Definition fn_throw (kw : kwargs) : bres value :=
   let? m := kw_must arg_str "message" kw in BErr EOther.
